@@ -447,7 +447,7 @@ class Polyline:
         With `ret_new_indices=True`, also returns the new indices of the
         original vertices and the new indices of the inserted points.
         """
-        geometric_midpoints = np.average(self.segments[segment_indices], axis=1)
+        geometric_midpoints = np.mean(self.segments[segment_indices], axis=1)
         return self.with_insertions(
             points=geometric_midpoints,
             indices=self.e[segment_indices][:, 1],
